@@ -144,11 +144,15 @@ Definition mk_bvshift_int (k : bvop) (a : term) (n : Z) : option term :=
 Definition mk_bvshl_int := mk_bvshift_int BLshl.
 Definition mk_bvlshr_int := mk_bvshift_int BLshr.
 Definition mk_bvashr_int := mk_bvshift_int BAshr.
-(* BVRepeat(formula, count): PysmtValueError unless count is an integer >= 1; then
+(* BVRepeat(formula, count): PysmtValueError unless count is an integer >= 1; PysmtTypeError
+   unless the operand is a bit-vector (get_type, also for count = 1 where no node is built); then
    res = formula; for _ in range(count - 1): res = BVConcat(res, formula) *)
 Definition mk_bvrepeat (f : term) (count : Z) : option term :=
   if count <? 1 then None
-  else Some (Nat.iter (Z.to_nat (count - 1)) (fun res => mk_bvconcat res f) f).
+  else match tc f with
+       | Some (TBV _) => Some (Nat.iter (Z.to_nat (count - 1)) (fun res => mk_bvconcat res f) f)
+       | _ => None
+       end.
 
 (* BVSMod(left, right): the SMT-LIB definition spelled out with m = left.bv_width() *)
 Definition mk_bvsmod (s t : term) : option term :=
